@@ -1,8 +1,384 @@
-//! stub — to be implemented
-use crate::common::{Ctx, Report};
+//! C07 — a rejected configuration command leaves no trace (ConfigState level).
+//!
+//! Direct lab on `ConfigState::dispatch`. Every command of a random history (half of them drawn
+//! from the catalogue of commands with exactly one invalid field among valid ones, a missing
+//! target, a duplicate or an unknown enum value) is judged against a snapshot taken before it:
+//!  * `Err`  => every configuration map strictly equal to the snapshot (no bucket normalisation);
+//!  * `Ok`   => only the entries the command names may differ (per-verb footprint).
 
-pub fn run(_ctx: &Ctx) -> Report {
-    let mut rep = Report::new("exploration", "not implemented");
-    rep.broken("check not implemented yet");
+use std::net::SocketAddr;
+
+use serde_json::{Value, json};
+use sozu_command_lib::{
+    proto::command::{
+        AddCertificate, CertificateAndKey, ListenerType, ReplaceCertificate, Request, SocketAddress,
+        request::RequestType,
+    },
+    state::ConfigState,
+};
+
+use crate::{
+    c05_roundtrip::{
+        StdoutGag,
+        cgen::{CERT_FIXTURES, G, Op, ops_json, req, req_json, sa, verb},
+        cmp::{Delta, Mode, compare, object_count, state_sizes, strictly_equal},
+        cops::{self, Cmd, fingerprint_hex, fixtures, gen_invalid, gen_op},
+        replay_cases,
+    },
+    common::{Ctx, Report, Rng, guard, par_cases},
+};
+
+pub use crate::c05_roundtrip::DIRECTED_BASE;
+
+fn addr_key(a: &SocketAddress) -> String {
+    SocketAddr::from(*a).to_string()
+}
+
+fn listener_map(proxy: i32) -> Option<&'static str> {
+    match ListenerType::try_from(proxy).ok()? {
+        ListenerType::Http => Some("http_listeners"),
+        ListenerType::Https => Some("https_listeners"),
+        ListenerType::Tcp => Some("tcp_listeners"),
+        ListenerType::Udp => Some("udp_listeners"),
+    }
+}
+
+/// names of the fields a patch sets (non-null members of its JSON form, `address` excluded)
+fn patch_fields<T: serde::Serialize>(p: &T) -> Vec<String> {
+    serde_json::to_value(p)
+        .ok()
+        .and_then(|v| v.as_object().map(|o| o.iter().filter(|(k, v)| !v.is_null() && k.as_str() != "address").map(|(k, _)| k.clone()).collect()))
+        .unwrap_or_default()
+}
+
+fn only_fields(d: &Delta, allowed: &[String]) -> bool {
+    d.kind == "changed" && d.fields.iter().all(|f| allowed.contains(f))
+}
+
+/// may an *accepted* `request` cause difference `d`? (the entries the verb names, from the
+/// statement; keys as built by `cmp::flatten_map`)
+fn in_footprint(request: &Request, d: &Delta) -> bool {
+    let Some(t) = &request.request_type else { return false };
+    let base = d.map.split('#').next().unwrap_or("");
+    let pseudo = d.map.contains('#');
+    match t {
+        RequestType::AddCluster(c) => d.map == "clusters" && d.key == c.cluster_id,
+        RequestType::RemoveCluster(id) => d.map == "clusters" && &d.key == id && d.kind == "missing",
+        RequestType::SetHealthCheck(s) => d.map == "clusters" && d.key == s.cluster_id && only_fields(d, &["health_check".to_owned()]),
+        RequestType::RemoveHealthCheck(id) => d.map == "clusters" && &d.key == id && only_fields(d, &["health_check".to_owned()]),
+        RequestType::AddHttpListener(l) => d.map == "http_listeners" && d.key == addr_key(&l.address) && d.kind == "extra",
+        RequestType::AddHttpsListener(l) => d.map == "https_listeners" && d.key == addr_key(&l.address) && d.kind == "extra",
+        RequestType::AddTcpListener(l) => d.map == "tcp_listeners" && d.key == addr_key(&l.address) && d.kind == "extra",
+        RequestType::AddUdpListener(l) => d.map == "udp_listeners" && d.key == addr_key(&l.address) && d.kind == "extra",
+        RequestType::RemoveListener(r) => Some(d.map.as_str()) == listener_map(r.proxy) && d.key == addr_key(&r.address) && d.kind == "missing",
+        RequestType::ActivateListener(r) => Some(d.map.as_str()) == listener_map(r.proxy) && d.key == addr_key(&r.address) && only_fields(d, &["active".to_owned()]),
+        RequestType::DeactivateListener(r) => Some(d.map.as_str()) == listener_map(r.proxy) && d.key == addr_key(&r.address) && only_fields(d, &["active".to_owned()]),
+        RequestType::UpdateHttpListener(p) => d.map == "http_listeners" && d.key == addr_key(&p.address) && only_fields(d, &patch_fields(p)),
+        RequestType::UpdateHttpsListener(p) => d.map == "https_listeners" && d.key == addr_key(&p.address) && only_fields(d, &patch_fields(p)),
+        RequestType::UpdateTcpListener(p) => d.map == "tcp_listeners" && d.key == addr_key(&p.address) && only_fields(d, &patch_fields(p)),
+        RequestType::UpdateUdpListener(p) => d.map == "udp_listeners" && d.key == addr_key(&p.address) && only_fields(d, &patch_fields(p)),
+        // the key of a frontend is its documented summary "address;hostname;path[;method]"
+        RequestType::AddHttpFrontend(f) => d.map == "http_fronts" && d.key == f.to_string() && d.kind == "extra",
+        RequestType::RemoveHttpFrontend(f) => d.map == "http_fronts" && d.key == f.to_string() && d.kind == "missing",
+        RequestType::AddHttpsFrontend(f) => d.map == "https_fronts" && d.key == f.to_string() && d.kind == "extra",
+        RequestType::RemoveHttpsFrontend(f) => d.map == "https_fronts" && d.key == f.to_string() && d.kind == "missing",
+        RequestType::AddTcpFrontend(f) | RequestType::RemoveTcpFrontend(f) => {
+            base == "tcp_fronts" && if pseudo { d.key == f.cluster_id } else { d.key.starts_with(&format!("{}|{}|", f.cluster_id, addr_key(&f.address))) }
+        }
+        RequestType::AddUdpFrontend(f) | RequestType::RemoveUdpFrontend(f) => {
+            base == "udp_fronts" && if pseudo { d.key == f.cluster_id } else { d.key.starts_with(&format!("{}|{}|", f.cluster_id, addr_key(&f.address))) }
+        }
+        RequestType::AddBackend(b) => {
+            base == "backends" && if pseudo { d.key == b.cluster_id } else { d.key == format!("{}|{}|{}", b.cluster_id, b.backend_id, addr_key(&b.address)) }
+        }
+        RequestType::RemoveBackend(b) => {
+            base == "backends" && if pseudo { d.key == b.cluster_id && d.map != "backends#bucket" } else { d.kind == "missing" && d.key == format!("{}|{}|{}", b.cluster_id, b.backend_id, addr_key(&b.address)) }
+        }
+        RequestType::AddCertificate(a) => {
+            let addr = addr_key(&a.address);
+            if d.map == "certificates#bucket" {
+                d.key == addr && d.kind == "extra"
+            } else {
+                d.map == "certificates" && d.kind == "extra" && d.key == format!("{addr}|{}", fingerprint_hex(&a.certificate))
+            }
+        }
+        RequestType::RemoveCertificate(r) => d.map == "certificates" && d.kind == "missing" && d.key == format!("{}|{}", addr_key(&r.address), r.fingerprint.to_lowercase()),
+        RequestType::ReplaceCertificate(r) => {
+            let addr = addr_key(&r.address);
+            d.map == "certificates" && (d.key == format!("{addr}|{}", r.old_fingerprint.to_lowercase()) || d.key == format!("{addr}|{}", fingerprint_hex(&r.new_certificate)))
+        }
+        _ => false,
+    }
+}
+
+/// second component of the generator label, without the parameter (":knob")
+fn label_class(label: &str) -> String {
+    match label.split_once('/') {
+        Some((_, rest)) => rest.split([':', '/']).next().unwrap_or(rest).to_owned(),
+        None => "plain".to_owned(),
+    }
+}
+
+/// commands whose outcome exposes a trace, run on the snapshot and on the state after
+fn probes(request: &Request, fx: &cops::Fx) -> Vec<(String, Request)> {
+    let mut v = Vec::new();
+    let cert = |i: usize| {
+        let f = &CERT_FIXTURES[fx.certs[i % fx.certs.len()]];
+        CertificateAndKey { certificate: f.cert.to_owned(), certificate_chain: vec![], key: f.key.to_owned(), versions: vec![], names: vec!["probe".to_owned()] }
+    };
+    match &request.request_type {
+        Some(RequestType::AddCertificate(a)) => {
+            v.push(("ReplaceCertificate on the same address".to_owned(), req(RequestType::ReplaceCertificate(ReplaceCertificate { address: a.address, new_certificate: cert(0), old_fingerprint: "00".to_owned(), new_expired_at: None }))));
+        }
+        Some(RequestType::ReplaceCertificate(r)) => {
+            v.push(("ReplaceCertificate(old fingerprint -> same certificate again)".to_owned(), req(RequestType::ReplaceCertificate(ReplaceCertificate { address: r.address, new_certificate: cert(1), old_fingerprint: r.old_fingerprint.clone(), new_expired_at: None }))));
+            v.push(("AddCertificate on the same address".to_owned(), req(RequestType::AddCertificate(AddCertificate { address: r.address, certificate: cert(2), expired_at: None }))));
+        }
+        _ => {}
+    }
+    v
+}
+
+struct Step<'a> {
+    case: u64,
+    index: usize,
+    ops: &'a [Op],
+    label: &'a str,
+}
+
+fn witness(ctx: &Ctx, st: &Step, request: &Request, result: &Result<(), String>, before: &ConfigState, after: &ConfigState, deltas: &[Delta], offending: &Delta) -> Value {
+    let fx = fixtures();
+    let probe_results: Vec<Value> = probes(request, fx)
+        .into_iter()
+        .map(|(name, p)| {
+            let mut b = before.clone();
+            let mut a = after.clone();
+            let rb = b.dispatch(&p).map_err(|e| e.to_string());
+            let ra = a.dispatch(&p).map_err(|e| e.to_string());
+            json!({"probe": name, "on_snapshot_before": format!("{rb:?}"), "on_state_after": format!("{ra:?}"), "outcomes_differ": rb.is_ok() != ra.is_ok()})
+        })
+        .collect();
+    let resync: Vec<String> = guard(|| before.diff(after)).unwrap_or_default().iter().map(|r| verb(r).to_owned()).collect();
+    json!({"case": st.case, "seed": ctx.seed, "command_index": st.index, "label": st.label,
+        "command": req_json(request), "result": format!("{result:?}"),
+        "offending_difference": offending.to_json(), "before_is_left": true,
+        "all_differences": deltas.iter().take(10).map(|x| json!({"map": x.map, "key": x.key, "kind": x.kind, "fields": x.fields})).collect::<Vec<_>>(),
+        "probes": probe_results,
+        "sozu_diff_snapshot_to_after": resync,
+        "state_sizes_before": state_sizes(before),
+        "history_before_command": ops_json(&st.ops[..st.index.min(st.ops.len())])})
+}
+
+/// judge one dispatched command; returns true when a violation was reported
+fn judge(ctx: &Ctx, rep: &mut Report, st: &Step, request: &Request, result: &Result<(), String>, before: &ConfigState, after: &ConfigState) -> bool {
+    let v = verb(request).to_owned();
+    let lc = label_class(st.label);
+    rep.obs("commands_judged", 1);
+    match result {
+        Err(_) => {
+            rep.obs("rejected_commands", 1);
+            rep.obs(&format!("verb:{v}:rejected"), 1);
+            rep.obs(&format!("rejected:{}", st.label.split(':').next().unwrap_or(st.label)), 1);
+            if strictly_equal(before, after) {
+                return false;
+            }
+            let deltas = compare(before, after, Mode::Strict);
+            let Some(d) = deltas.first() else { return false };
+            rep.violation(
+                &format!("rejected_command_left_trace/{v}/{lc}/{}/{}", d.map, d.kind),
+                &format!("{v} ({}) was answered with an error but the configuration changed: map {} key {} ({}{})", st.label, d.map, d.key, d.kind,
+                    if d.fields.is_empty() { String::new() } else { format!(": {}", d.fields.join(",")) }),
+                witness(ctx, st, request, result, before, after, &deltas, d),
+            );
+            true
+        }
+        Ok(()) => {
+            rep.obs("accepted_commands", 1);
+            rep.obs(&format!("verb:{v}:accepted"), 1);
+            if st.label.contains('/') {
+                rep.obs(&format!("accepted:{}", st.label.split(':').next().unwrap_or(st.label)), 1);
+            }
+            let deltas = compare(before, after, Mode::Strict);
+            if deltas.is_empty() {
+                rep.obs("accepted_commands_without_effect", 1);
+            }
+            rep.obs("footprint_entries_compared", deltas.len() as u64);
+            for d in &deltas {
+                if in_footprint(request, d) {
+                    continue;
+                }
+                rep.violation(
+                    &format!("accepted_command_changed_unnamed_object/{v}/{}/{}", d.map, d.kind),
+                    &format!("{v} ({}) was accepted and changed an entry it does not name: map {} key {} ({}{})", st.label, d.map, d.key, d.kind,
+                        if d.fields.is_empty() { String::new() } else { format!(": {}", d.fields.join(",")) }),
+                    witness(ctx, st, request, result, before, after, &deltas, d),
+                );
+                return true;
+            }
+            // removal by (cluster, address) that also dropped a twin with other tags: the verb
+            // names cluster and address, so it is within the footprint; counted
+            if let Some(RequestType::RemoveTcpFrontend(_) | RequestType::RemoveUdpFrontend(_)) = &request.request_type {
+                if deltas.iter().filter(|d| !d.map.contains('#') && d.kind == "missing").count() > 1 {
+                    rep.obs("exempt:frontend_removal_by_address_dropped_several_entries", 1);
+                }
+            }
+            false
+        }
+    }
+}
+
+fn directed(k: u64) -> Vec<Cmd> {
+    let fx = fixtures();
+    let f = |i: usize, names: Vec<&str>| {
+        let c = &CERT_FIXTURES[fx.certs[i % fx.certs.len()]];
+        CertificateAndKey { certificate: c.cert.to_owned(), certificate_chain: vec![], key: c.key.to_owned(), versions: vec![], names: names.into_iter().map(|s| s.to_owned()).collect() }
+    };
+    let mut rng = Rng::new(77);
+    let mut g = G::new(&mut rng, 0);
+    g.oddities = false;
+    let a = sa("127.0.0.1:443");
+    use sozu_command_lib::proto::command::{AlpnProtocols, UpdateHttpListenerConfig, UpdateHttpsListenerConfig};
+    match k {
+        // listener patch: valid timeout + invalid sozu_id_header
+        0 => vec![
+            (req(RequestType::AddHttpListener(g.http_listener(a))), "AddHttpListener".to_owned()),
+            (req(RequestType::UpdateHttpListener(UpdateHttpListenerConfig { address: a, front_timeout: Some(1), sozu_id_header: Some("a b".to_owned()), ..Default::default() })), "UpdateHttpListener/bad_sozu_id_header".to_owned()),
+        ],
+        1 => vec![
+            (req(RequestType::AddHttpsListener(g.https_listener(a))), "AddHttpsListener".to_owned()),
+            (req(RequestType::UpdateHttpsListener(UpdateHttpsListenerConfig { address: a, front_timeout: Some(1), alpn_protocols: Some(AlpnProtocols { values: vec!["spdy/3".to_owned()] }), ..Default::default() })), "UpdateHttpsListener/bad_alpn".to_owned()),
+        ],
+        2 => vec![
+            (req(RequestType::AddHttpsListener(g.https_listener(a))), "AddHttpsListener".to_owned()),
+            (req(RequestType::UpdateHttpsListener(UpdateHttpsListenerConfig { address: a, front_timeout: Some(1), sozu_id_header: Some(String::new()), ..Default::default() })), "UpdateHttpsListener/bad_sozu_id_header".to_owned()),
+        ],
+        // replacement by an unparsable certificate
+        3 => {
+            let c = f(0, vec!["x"]);
+            let fp = fingerprint_hex(&c);
+            let mut bad = f(1, vec!["y"]);
+            bad.certificate = "garbage".to_owned();
+            vec![
+                (req(RequestType::AddCertificate(AddCertificate { address: a, certificate: c, expired_at: None })), "AddCertificate".to_owned()),
+                (req(RequestType::ReplaceCertificate(ReplaceCertificate { address: a, new_certificate: bad, old_fingerprint: fp, new_expired_at: None })), "ReplaceCertificate/unparsable_new_certificate".to_owned()),
+            ]
+        }
+        // certificate that is PEM but not X.509, no names, on a fresh address
+        _ => {
+            let Some(pem) = fx.not_x509.first() else { return vec![] };
+            let mut c = f(0, vec![]);
+            c.certificate = (*pem).to_owned();
+            vec![(req(RequestType::AddCertificate(AddCertificate { address: a, certificate: c, expired_at: None })), "AddCertificate/pem_not_x509_empty_names/fresh_address".to_owned())]
+        }
+    }
+}
+const DIRECTED: u64 = 5;
+
+fn run_case(ctx: &Ctx, case: u64, rep: &mut Report) {
+    let fx = fixtures();
+    let mut st = ConfigState::new();
+    let mut ops: Vec<Op> = Vec::new();
+    let mut planned: Vec<Cmd> = Vec::new();
+    let mut rng = Rng::for_case(ctx.seed, 7, case);
+    let is_directed = case >= DIRECTED_BASE;
+    let n_ops = if is_directed { 0 } else { rng.urange(5, ctx.tier.pick(50, 100)) };
+    if is_directed {
+        planned = directed(case - DIRECTED_BASE);
+        planned.reverse();
+    }
+    let density = 1 + rng.below(3);
+    let mut violations_here = 0;
+    loop {
+        let cmds: Vec<Cmd> = if is_directed {
+            match planned.pop() {
+                Some(c) => vec![c],
+                None => break,
+            }
+        } else {
+            if ops.len() >= n_ops {
+                break;
+            }
+            let mut g = G::new(&mut rng, density);
+            if g.rng.bool() { vec![gen_invalid(&mut g, &st, fx)] } else { gen_op(&mut g, &st, fx) }
+        };
+        for (request, label) in cmds {
+            let before = st.clone();
+            let result = st.dispatch(&request).map_err(|e| e.to_string());
+            let step = Step { case, index: ops.len(), ops: &ops, label: &label };
+            if violations_here < 4 && judge(ctx, rep, &step, &request, &result, &before, &st) {
+                violations_here += 1;
+                // keep judging the rest of the history from a state without the trace
+                if result.is_err() {
+                    st = before;
+                }
+            }
+            ops.push(Op { req: request, label, ok: result.is_ok(), err: result.err() });
+        }
+    }
+    let shape: Vec<u8> = ops.iter().flat_map(|o| [crate::common::rng::fnv1a(o.label.as_bytes()) as u8, o.ok as u8]).collect();
+    rep.case_bytes(&shape, ops.iter().any(|o| !o.ok) && ops.iter().any(|o| o.ok));
+    rep.obs_max("objects_in_state", object_count(&st) as u64);
+    if case < 2 {
+        rep.sample(json!({"case": case, "ops": ops.iter().take(12).map(|o| json!({"label": o.label, "ok": o.ok, "err": o.err})).collect::<Vec<_>>(), "final_state_sizes": state_sizes(&st)}));
+    }
+}
+
+pub fn run(ctx: &Ctx) -> Report {
+    let mut rep = Report::new(
+        "exploration",
+        "random histories of 5..50 commands on an initially empty ConfigState (generator shared with C05: every mutating verb, collision-rich alphabet); half of the commands come from a 52-entry catalogue of commands with exactly one invalid field among valid ones (listener patches with one flood knob at 0, shrink ratio < 2, bad ALPN value, bad sozu_id_header, unknown address; certificate replacement with unparsable certificate / bad hex / unknown address / old == new; AddCertificate with a non-PEM or non-X.509 body on fresh and known addresses; unknown listener type / rule position / path kind / LB algorithm; missing targets; duplicates; empty and non-configuration requests); every command is judged against a snapshot of the state before it; a case is non-trivial when it saw both accepted and rejected commands; distinct = distinct (label, outcome) sequences; 5 directed minimal scenarios run first",
+    );
+    rep.assume("level (i) only: ConfigState::dispatch; hub and worker levels belong to the hub and worker labs");
+    rep.assume("footprint of an accepted command: the map entry (or, for bucketed maps, the bucket + entries with the named cluster/address/id/fingerprint) the verb names; for patches additionally only the fields present in the patch; the http(s) frontend key is the documented summary address;hostname;path[;method]; RemoveTcp/UdpFrontend names (cluster, address): dropping several entries at that address is counted as exempt, not judged");
+    for k in [
+        "rejected_commands",
+        "accepted_commands",
+        "rejected:UpdateHttpListener/bad_sozu_id_header",
+        "rejected:UpdateHttpsListener/bad_alpn",
+        "rejected:UpdateHttpsListener/bad_sozu_id_header",
+        "rejected:UpdateHttpListener/knob_zero",
+        "rejected:UpdateHttpsListener/shrink_ratio_lt_2",
+        "rejected:UpdateHttpsListener/unknown_address",
+        "rejected:ReplaceCertificate/unparsable_new_certificate",
+        "rejected:ReplaceCertificate/bad_hex_old_fingerprint",
+        "rejected:ReplaceCertificate/unknown_address",
+        "accepted:ReplaceCertificate/old_equals_new",
+        "rejected:AddCertificate/not_pem",
+        "rejected:RemoveListener/unknown_listener_type",
+        "rejected:AddHttpFrontend/unknown_rule_position",
+        "rejected:AddCluster/invalid_inline_health_check",
+        "rejected:SetHealthCheck/invalid_config",
+        "rejected:AddHttpListener/duplicate_address",
+        "rejected:AddHttpFrontend/duplicate_key",
+        "rejected:RemoveBackend/unknown_id_or_address",
+        "rejected:Empty/no_request_type",
+        "footprint_entries_compared",
+    ] {
+        rep.require(k);
+    }
+    let fx = fixtures();
+    rep.set("pem_but_not_x509_variants_available", json!(fx.not_x509.len()));
+    let gag = StdoutGag::new();
+    if let Some((rctx, cases)) = replay_cases(ctx) {
+        for c in cases {
+            if let Err(p) = guard(|| run_case(&rctx, c, &mut rep)) {
+                rep.broken(&format!("panic while replaying case {c}: {} at {}", p.message, p.location));
+            }
+        }
+        drop(gag);
+        return rep;
+    }
+    for k in 0..DIRECTED {
+        if let Err(p) = guard(|| run_case(ctx, DIRECTED_BASE + k, &mut rep)) {
+            if p.in_sozu() {
+                rep.violation(&p.signature(), &format!("sozu panicked: {} at {}", p.message, p.location), json!({"case": DIRECTED_BASE + k, "seed": ctx.seed}));
+            } else {
+                rep.broken(&format!("harness panic in directed case {k}: {} at {}", p.message, p.location));
+            }
+        }
+    }
+    let n = ctx.opt_u64("cases", ctx.tier.pick(30_000, 1_000_000));
+    par_cases(ctx, &mut rep, n, |i, r| run_case(ctx, i, r));
+    drop(gag);
     rep
 }
